@@ -295,14 +295,19 @@ def _ops_ok(ops, n):
 def pre_queue(cls: int, maxsize: int, ops: List[Tuple[int, int, int]]) -> bool:
     if not (0 <= cls <= 2 and 0 <= maxsize <= P.MAXSIZE and _ops_ok(ops, P.N)):
         return False
+    if len(ops) > P.NFULL:
+        # longer histories: untimed alphabet only (put, put_nowait, get, get_nowait, task_done, join())
+        for k, a, b in ops:
+            if k == 1 or k == 4 or k >= 8 or (k == 7 and b != 0):
+                return False
     return in_shard(cls + 3 * (ops[0][0] if len(ops) > 0 else 0))
 
 
 @harness(
     pre=pre_queue,
-    quick=dict(N=3, MAXSIZE=2, timeout=100),
-    thorough=dict(N=4, MAXSIZE=3, timeout=1500),
-    nshards=dict(quick=30, thorough=30),
+    quick=dict(N=3, NFULL=2, MAXSIZE=2, timeout=100, reach_timeout=200),
+    thorough=dict(N=4, NFULL=3, MAXSIZE=3, timeout=1800),
+    nshards=dict(quick=15, thorough=30),
     reach=["put_serves_getter", "get_admits_putter", "queue_full_raises", "extra_task_done_raises",
            "join_released", "timed_out_op"],
     units=["queues.Queue.put", "queues.Queue.put_nowait", "queues.Queue.get", "queues.Queue.get_nowait",
@@ -310,7 +315,8 @@ def pre_queue(cls: int, maxsize: int, ops: List[Tuple[int, int, int]]) -> bool:
            "queues._set_timeout", "queues.Queue.__put_internal", "queues.LifoQueue", "queues.PriorityQueue",
            "locks.Event.wait", "gen.with_timeout"],
     stubs=_STUBS,
-    outside=["histories longer than N operations (h_queue_step covers deeper pre-states)",
+    outside=["histories longer than NFULL operations over the full alphabet / longer than N over the untimed "
+             "alphabet (h_queue_step covers deeper pre-states with timeouts and cancellations)",
              "maxsize > MAXSIZE", "items other than small ints 0..2", "async iteration protocol"],
 )
 def h_queue(cls: int, maxsize: int, ops: List[Tuple[int, int, int]]):
@@ -328,9 +334,11 @@ def h_queue(cls: int, maxsize: int, ops: List[Tuple[int, int, int]]):
 # Inductive step: symbolic pre-state built through the real API, then M symbolic operations.
 
 def pre_step(cls: int, mode: int, maxsize: int, wst: List[int], ops: List[Tuple[int, int, int]]) -> bool:
-    if not (0 <= cls <= 2 and 0 <= mode <= 1 and 1 <= maxsize <= 2 and len(wst) <= 3
+    if not (0 <= cls <= 2 and 0 <= mode <= 1 and 1 <= maxsize <= 2 and len(wst) <= P.W
             and _ops_ok(ops, P.M)):
         return False
+    if mode == 1 and maxsize != 1:
+        return False        # blocked getters: queue is empty, one capacity value suffices
     for w in wst:
         if not 0 <= w <= 4:
             return False
@@ -339,17 +347,17 @@ def pre_step(cls: int, mode: int, maxsize: int, wst: List[int], ops: List[Tuple[
 
 @harness(
     pre=pre_step,
-    quick=dict(M=1, timeout=100),
-    thorough=dict(M=2, timeout=1500),
-    nshards=dict(quick=30, thorough=30),
+    quick=dict(M=1, W=2, timeout=100, reach_timeout=200),
+    thorough=dict(M=2, W=2, timeout=1800),
+    nshards=dict(quick=15, thorough=30),
     reach=["put_skips_dead_getter", "get_skips_dead_putter"],
     units=["queues.Queue.put", "queues.Queue.get", "queues.Queue.get_nowait", "queues.Queue.put_nowait",
            "queues.Queue._consume_expired", "queues.Queue.task_done", "queues.Queue.join"],
     stubs=_STUBS + ["pre-state built through the real put()/get()/cancel()/timer expiry: mode 0 = full queue "
-                    "(maxsize items of value 1) + up to 3 blocked putters with items 2,1,0; mode 1 = empty queue + "
-                    "up to 3 blocked getters; waiter states 0 pending, 1 pending deadline now+2, 2 pending "
+                    "(maxsize items of value 1) + up to W blocked putters with items 2,1,..; mode 1 = empty queue + "
+                    "up to W blocked getters (maxsize 1); waiter states 0 pending, 1 pending deadline now+2, 2 pending "
                     "timedelta 2, 3 timed out, 4 cancelled; one pending join() in mode 0"],
-    outside=["more than 3 blocked operations in the pre-state", "more than M further operations",
+    outside=["more than W blocked operations in the pre-state", "more than M further operations",
              "maxsize > 2 in the pre-state"],
 )
 def h_queue_step(cls: int, mode: int, maxsize: int, wst: List[int], ops: List[Tuple[int, int, int]]):
